@@ -15,6 +15,15 @@ CHECKS = {
     "C02": dict(engine="E1", cat="model_checking", ref="4/C02",
                 text="Same exhaustive history exploration with identity-tracking element types: an id ledger for the declared-relocatable type (memmove carries the id), an address ledger plus self pointer for the non-relocatable one; every construct/assign/destroy is checked against the ledger, live-object count equals the sum of sizes after every transition and zero after the pool is destroyed.",
                 note=E1_NOTE + "; sets are covered by the E2 run of the same check", tech="explicit-state BFS over the real implementation with per-object lifetime ledger"),
+    "C03": dict(engine="E2", cat="model_checking", ref="4/C03",
+                text="Explicit-state BFS over real FlatSets (every comparator kind incl. coarse, stateful and transparent; every underlying vector) against std::set built with the same comparator object: every insert/hint/range/node/erase/merge/extract/swap/copy/move/vector-adoption operation for every key, hint and position from every reachable state; iteration sequence, returned booleans/counts/bounds/positions and node ownership compared on every transition; calls through a default-constructed comparator are flagged.",
+                note="key domain 3-6 keys, bulk sequences <= 2-3 keys, pool 1-2 sets; canonical-key merging with canon-on-replay; g++12/libstdc++", tech="explicit-state BFS over the real implementation, std::set reference model"),
+    "C04": dict(engine="E2", cat="model_checking", ref="4/C04",
+                text="Same exploration over SmallSet<N=1..3> on both backings (std::set and FlatSet): reachable states include inline (every insertion order), large, large shrunk below N, drained and refilled; contents compared as a set, plus sizes, membership, insertion booleans, erase counts, node ownership and the six comparison operators against every pool member in any representation; merge with sets of another N.",
+                note="as C03; both backings are compared with the same std::set model, hence with each other", tech="explicit-state BFS over the real implementation, std::set reference model"),
+    "C11": dict(engine="E2", cat="model_checking", ref="4/C11",
+                text="At every reachable SmallSet state: begin..end and rbegin..rend walks (step-bounded), find/insert/emplace/hint for every key, erase(pos) at every position, erase(first,last) for every range and the erase-while-iterating loop for every predicate over the key domain (2^k); returned iterators must be end() or designate the expected/remaining element; a stale iterator shows as a runaway loop, bad_variant_access or assertion and is reported with its history.",
+                note="as C04", tech="explicit-state BFS over the real implementation with iterator-contract oracles"),
     "C05": dict(engine="E1", cat="model_checking", ref="4/C05",
                 text="Same exploration with a reference automaton 'still entitled to inline storage' per container; while entitled every operation window must show zero allocator calls and zero malloc (ASan malloc hook), capacity()==N and data() inside the object; FixedCapacityVector: zero malloc always and begin() constant.",
                 note=E1_NOTE, tech="explicit-state BFS over the real implementation, malloc-hook and allocator-ledger oracle"),
@@ -41,11 +50,8 @@ CHECKS = {
 }
 
 NOT_YET = {
-    "C03": "check under construction (E2 set explorer)",
-    "C04": "check under construction (E2 set explorer)",
     "C09": "check under construction (E3 fault enumerator)",
     "C10": "check under construction",
-    "C11": "check under construction (E2 set explorer)",
     "C12": "check under construction",
     "C13": "check under construction",
     "C14": "check under construction",
@@ -56,6 +62,7 @@ NOT_YET = {
 
 ENGINES = [
     dict(name="E1", path="src/explore_vec.cpp", serves_properties=["C01", "C02", "C05", "C06", "C07", "C08", "C10", "C14"], kind_free_text="explicit-state BFS over real vector instantiations with reference model and ledgers"),
+    dict(name="E2", path="src/explore_set.cpp", serves_properties=["C02", "C03", "C04", "C05", "C11", "C14"], kind_free_text="explicit-state BFS over real FlatSet/SmallSet instantiations against std::set"),
     dict(name="E-mem", path="src/c15/c15.cpp", serves_properties=["C15"], kind_free_text="exhaustive case x fault-index enumeration of the memory algorithms per language standard"),
     dict(name="E6", path="src/c20/harness.cpp", serves_properties=["C20"], kind_free_text="preemption-bounded schedule explorer over real threads (serialising scheduler)"),
     dict(name="E7", path="checks/c17.py", serves_properties=["C17"], kind_free_text="generated static matrix, compiler-decided cells vs Python oracle"),
